@@ -2,3 +2,4 @@ import Dhcp.Go.Basic
 import Dhcp.Go.Lexer
 import Dhcp.V4.Packet
 import Dhcp.Client.Timed
+import Dhcp.Client.LTS
